@@ -394,6 +394,11 @@ class Builtins:
 
     def f_enumerate(self, pos, kw, fr):
         c = self.it.iter_concrete(pos[0])
+        if c is None and isinstance(pos[0], SList) and len(pos) == 1 and not kw:
+            src = pos[0]
+            out = SList(None, length=list_len(src), fresh=True, label="enumerate")
+            out.elem = lambda j, src=src: (SInt(to_term_int(j), 0, None), src.elem(j) if src.elem is not None else self.cx.opaque("elem"))
+            return out
         if c is None:
             raise Unsupported("enumerate of abstract sequence")
         start = pos[1] if len(pos) > 1 else kw.get("start", 0)
